@@ -15,6 +15,7 @@ mod p_text;
 #[cfg(feature = "repo")]
 mod p_repo;
 mod p_tables;
+mod p_idindex;
 
 fn main() {
     std::panic::set_hook(Box::new(|_| {}));
@@ -23,6 +24,12 @@ fn main() {
     let func = args.get(2).map(|s| s.as_str()).unwrap_or("");
     let replay = args.iter().position(|a| a == "--replay").and_then(|i| args.get(i + 1)).map(|s| serde_json::from_str::<serde_json::Value>(s).expect("replay json"));
     let seed: u64 = std::env::var("VERIF_SEED").ok().and_then(|s| s.parse().ok()).unwrap_or(0);
+    // C20: the in-memory IdIndex part needs jj-lib only; run it first in every build
+    if pid == "C20" {
+        if let Some(r) = p_idindex::run(pid, func, replay.clone(), seed) {
+            if r["found"] == true || replay.as_ref().map(|i| i["kind"] == "C20idindex").unwrap_or(false) { println!("{}", r); return; }
+        }
+    }
     let r = match pid {
         "C01" | "C02" => p_merge::run(pid, func, replay, seed),
         "C12" | "C13" => p_refs::run(pid, func, replay, seed),
